@@ -51,20 +51,35 @@ type Term struct {
 	id   int
 }
 
+type termKey struct {
+	op         Op
+	w          int
+	val        uint64
+	a, b       int
+	name       string
+	n          int
+	x0, x1, x2 int
+}
+
 type TermTable struct {
-	tab  map[string]*Term
+	tab  map[termKey]*Term
 	list []*Term
 }
 
-func NewTT() *TermTable { return &TermTable{tab: map[string]*Term{}} }
+func NewTT() *TermTable { return &TermTable{tab: map[termKey]*Term{}} }
 
 func (tt *TermTable) mk(t Term) *Term {
-	var sb strings.Builder
-	fmt.Fprintf(&sb, "%d|%d|%d|%d|%d|%s", t.op, t.w, t.val, t.a, t.b, t.name)
-	for _, x := range t.args {
-		fmt.Fprintf(&sb, "|%d", x.id)
+	k := termKey{op: t.op, w: t.w, val: t.val, a: t.a, b: t.b, name: t.name, n: len(t.args), x0: -1, x1: -1, x2: -1}
+	switch len(t.args) {
+	case 3:
+		k.x2 = t.args[2].id
+		fallthrough
+	case 2:
+		k.x1 = t.args[1].id
+		fallthrough
+	case 1:
+		k.x0 = t.args[0].id
 	}
-	k := sb.String()
 	if e, ok := tt.tab[k]; ok {
 		return e
 	}
